@@ -32,6 +32,7 @@ static sim::EventLog g_log2; // client 1 (`clients=2`: a second caller thread wi
 static std::vector<std::string> g_clauses2;
 static const smt::sat_core *g_sat2 = nullptr;
 static thread_local int tl_client = 0;
+static int g_clients = 1;
 static std::string g_struct;
 static bool g_debug = false;
 static std::vector<std::string> g_debug_lines;
@@ -133,6 +134,7 @@ static void emit_result(const std::string &status, const std::string &vline)
   g_out->line("C sched.max_busy_workers " + std::to_string(par::sched_max_inflight()));
   g_out->line("C sched.workers_that_ran " + std::to_string(par::sched_workers_that_ran()));
   g_out->line("C recorded_clauses " + std::to_string(g_clauses.size()));
+  g_out->line(std::string("C par.runs_with_two_caller_threads ") + (g_clients >= 2 ? "1" : "0"));
   bool nontrivial = par::sched_workers_that_ran() >= 2 && par::sched_max_inflight() >= 2;
   g_out->line("R status=" + status + " hash=" + sim::hex64(g_log.hash()) + " ops=" + std::to_string(g_ops_done) + " done=" + std::to_string(par::sched_steps()) + " nontrivial=" + (nontrivial ? "1" : "0") + " sig=" + g_tail + " ihash=" + sim::hex64(par::sched_hash()));
   g_out->flush();
@@ -439,6 +441,7 @@ static void run_cmd(const sim::Cmd &c, sim::Out &out)
 #ifndef PARALLELIZE
   clients = 1;
 #endif
+  g_clients = clients;
   smt::verif::on_row_alloc = row_alloc;
   smt::verif::on_row_free = row_free;
   sim::layout::start(seed, false, 0);
